@@ -39,7 +39,7 @@ func init() {
 			}}},
 		Quick:    200000,
 		Thorough: 3000000,
-		Require:  []string{"adv.handshake.stall", "blocked.when:local-close", "blocked.when:peer-fin", "blocked.when:peer-reset", "interrupted.whileBlocked:cancel", "close.whileReaderBlockedOnFullQueue", "socket.deadOnArrival", "onClose.registeredLate", "onClose.registeredAfterTheEnd"},
+		Require:  []string{"adv.handshake.stall", "blocked.when:local-close", "blocked.when:peer-fin", "blocked.when:peer-reset", "interrupted.whileBlocked:cancel", "close.whileReaderBlockedOnFullQueue", "socket.deadOnArrival", "onClose.registeredLate", "onClose.registeredAfterTheEnd", "handshake.entered"},
 		Assume: []string{
 			"bounded delay D = one tick interval (4 s) + 1 s of simulated time after the interrupting event (for a deadline: after the deadline), with one housekeeping tick in between and nothing further delivered",
 			"connections are built like Dial does (the library owns and closes the socket); Stop / Serve of the tcp and dtls servers are checked by hosting C10's server workloads (rule C09.R5: Serve returns after Stop, nothing stays blocked)",
@@ -126,10 +126,17 @@ func c09Run(e *Env) {
 
 	var w *CWorld
 	var hsClosed <-chan struct{}
+	hsLock := make(chan struct{}, 1)
 	handshake := func(ctx context.Context) error {
 		if peer != pStallHandshake {
 			return nil
 		}
+		// crypto/tls and pion/dtls let one caller at a time into the handshake - a mutex taken at the top of
+		// HandshakeContext, before the context is looked at - and the first caller is the connection's own read loop,
+		// whose context never expires. (A channel here: a wait for a sync.Mutex would not be durable in the bubble.)
+		hsLock <- struct{}{}
+		defer func() { <-hsLock }()
+		e.Probe("handshake.entered")
 		// a stalled handshake ends when its context ends or the socket is closed underneath it
 		select {
 		case <-ctx.Done():
